@@ -6,7 +6,7 @@
    outside the grammar (laws in TypesProofs + generator truth). *)
 From Coq Require Import List Bool NArith Lia String.
 From VJ Require Import Model.Str Model.Json Model.Ast Model.State Model.Util Model.Types
-  Lemmas.StrLemmas Lemmas.TypesProofs.
+  Lemmas.StrLemmas Lemmas.TypesProofs Lemmas.NamesProofs.
 Import ListNotations.
 Local Open Scope list_scope.
 
@@ -17,6 +17,8 @@ Inductive penc :=
 | EAlias (sym : str) (c : N) (ps : list node) (e : penc)
 | EPartial (e : penc)
 | ERequired (e : penc)
+| EPick (e : penc) (k : kenc)
+| EOmit (e : penc) (k : kenc)
 | EInter (es : list penc)
 | EUnion (es : list penc).
 
@@ -32,6 +34,8 @@ Fixpoint enc_p (e : penc) : node :=
   | EAlias sym c ps _ => tref sym c ps
   | EPartial e => tref (s_ "Partial") (e_unres E) [enc_p e]
   | ERequired e => tref (s_ "Required") (e_unres E) [enc_p e]
+  | EPick e k => tref (s_ "Pick") (e_unres E) [enc_p e; enc_k k]
+  | EOmit e k => tref (s_ "Omit") (e_unres E) [enc_p e; enc_k k]
   | EInter es => gobj "TsIntersectionType" [fld "types" (NArr (map enc_p es))]
   | EUnion es => gobj "TsUnionType" [fld "types" (NArr (map enc_p es))]
   end.
@@ -42,6 +46,8 @@ Fixpoint den (e : penc) : list relem :=
   | EParen e | EOptional e | EAlias _ _ _ e => den e
   | EPartial e => map (set_optional true) (den e)
   | ERequired e => map (set_optional false) (den e)
+  | EPick e k => filter (fun x => key_in (names k) x false) (den e)
+  | EOmit e k => filter (fun x => negb (key_in (names k) x false)) (den e)
   | EInter es | EUnion es => flat_map den es
   end.
 
@@ -49,6 +55,7 @@ Fixpoint pdepth (e : penc) : nat :=
   match e with
   | ELit _ => 1
   | EParen e | EOptional e | EAlias _ _ _ e | EPartial e | ERequired e => S (pdepth e)
+  | EPick e k | EOmit e k => S (Nat.max (pdepth e) (kdepth k))
   | EInter es | EUnion es => S (fold_right (fun e a => Nat.max (pdepth e) a) 0%nat es)
   end.
 
@@ -62,6 +69,8 @@ Fixpoint pwf (e : penc) : Prop :=
   | EAlias sym c _ e => reg_get sym c (aliases s) = Some (enc_p e) /\ pwf e
   | EPartial e => undecl (s_ "Partial") /\ pwf e
   | ERequired e => undecl (s_ "Required") /\ pwf e
+  | EPick e k => undecl (s_ "Pick") /\ pwf e /\ kwf s k
+  | EOmit e k => undecl (s_ "Omit") /\ pwf e /\ kwf s k
   | EInter es | EUnion es =>
       (fix all (l : list penc) : Prop := match l with [] => True | x :: r => pwf x /\ all r end) es
   end.
@@ -76,6 +85,8 @@ Hypothesis Hopt : forall e, P e -> P (EOptional e).
 Hypothesis Halias : forall sym c ps e, P e -> P (EAlias sym c ps e).
 Hypothesis Hpartial : forall e, P e -> P (EPartial e).
 Hypothesis Hrequired : forall e, P e -> P (ERequired e).
+Hypothesis Hpick : forall e k, P e -> P (EPick e k).
+Hypothesis Homit : forall e k, P e -> P (EOmit e k).
 Hypothesis Hinter : forall es, Forall P es -> P (EInter es).
 Hypothesis Hunion : forall es, Forall P es -> P (EUnion es).
 Fixpoint penc_ind' (e : penc) : P e :=
@@ -88,6 +99,8 @@ Fixpoint penc_ind' (e : penc) : P e :=
   | EAlias sym c ps e => Halias sym c ps e (penc_ind' e)
   | EPartial e => Hpartial e (penc_ind' e)
   | ERequired e => Hrequired e (penc_ind' e)
+  | EPick e k => Hpick e k (penc_ind' e)
+  | EOmit e k => Homit e k (penc_ind' e)
   | EInter es => Hinter es (go es)
   | EUnion es => Hunion es (go es)
   end.
@@ -109,6 +122,17 @@ Proof.
     rewrite (IH f (acc ++ den e) ltac:(lia) Hwr). rewrite app_assoc. reflexivity.
 Qed.
 
+Lemma rte_omit f o k :
+  undecl (s_ "Omit") ->
+  rte E (S f) (tref (s_ "Omit") (e_unres E) [o; k]) s =
+  let '(keys, s1) := rsus E f k s in
+  let '(inner, s2) := rte E f o s1 in (filter (fun x => negb (key_in keys x false)) inner, s2).
+Proof.
+  intros [H1 H2]. cbn -[reg_get] in *. rewrite H1, H2. rewrite N.eqb_refl.
+  destruct (rsus E f k s) as [keys s1]. destruct (rte E f o s1) as [inner s2]. f_equal.
+  apply filter_ext. intros x. unfold key_in. destruct (relem_key x) as [[]|]; reflexivity.
+Qed.
+
 Theorem rte_exact : forall e, exact_at e.
 Proof.
   induction e using penc_ind'; unfold exact_at; intros [|f] Hd Hw; try (cbn in Hd; lia); cbn [pdepth] in Hd.
@@ -122,6 +146,10 @@ Proof.
     rewrite (IHe f ltac:(lia) Hw). reflexivity.
   - destruct Hw as [[Ha Hi] Hw]. cbn [enc_p den]. rewrite (rte_required E f (enc_p e) s Ha Hi).
     rewrite (IHe f ltac:(lia) Hw). reflexivity.
+  - destruct Hw as [[Ha Hi] [Hw Hk]]. cbn [enc_p den]. rewrite (rte_pick E f (enc_p e) (enc_k k) s Ha Hi).
+    rewrite (rsus_exact E s k f ltac:(lia) Hk). rewrite (IHe f ltac:(lia) Hw). reflexivity.
+  - destruct Hw as [Hu [Hw Hk]]. cbn [enc_p den]. rewrite (rte_omit f (enc_p e) (enc_k k) Hu).
+    rewrite (rsus_exact E s k f ltac:(lia) Hk). rewrite (IHe f ltac:(lia) Hw). reflexivity.
   - cbn [enc_p den]. cbn -[rte fold_left map]. apply (list_fold es H f [] ltac:(lia) Hw).
   - cbn [enc_p den]. cbn -[rte fold_left map]. apply (list_fold es H f [] ltac:(lia) Hw).
 Qed.
@@ -130,6 +158,7 @@ End Enc.
 
 (* non-vacuity: an alias-free nested encoding meets the hypotheses in the initial state *)
 Definition penc_example : penc :=
-  EInter [EParen (ELit [gobj "TsPropertySignature" []]); EUnion [ELit []; EOptional (ELit [])]].
+  EInter [EParen (ELit [gobj "TsPropertySignature" []]); EUnion [ELit []; EOptional (ELit [])];
+          EPick (ELit [gobj "TsPropertySignature" [fld "key" (Ident (s_ "a") 0 false)]]) (KUnion [KLit (s_ "a") nnull])].
 Lemma penc_example_ok : pwf E_dummy st0 penc_example /\ (pdepth penc_example <= type_fuel)%nat.
-Proof. split; [cbn; tauto|vm_compute; repeat constructor]. Qed.
+Proof. split; [cbn; repeat split|vm_compute; repeat constructor]. Qed.
